@@ -26,7 +26,8 @@ RULE = ("cases = generated valid specifications x {0 violations (accepted stream
         "accepted-but-unsupported shapes of the known findings; distinct = structural signature x set of violated rules; evaluations = "
         "specifications classified (constructed, functions created, solved, simulated)")
 ASSUMPTIONS = ["wrong *types* of n_periods and non-dict containers are not among the listed rules and are not generated"]
-VIOLATIONS = ["n_periods", "no_utility", "no_next", "overlap", "non_grid", "non_callable", "key_not_str", "stoch_on_cont", "stoch_dep_cont", "filter_param", "bad_grid"]
+VIOLATIONS = ["n_periods", "no_utility", "no_next", "overlap", "non_grid", "non_callable", "key_not_str", "stoch_on_cont", "stoch_dep_cont", "filter_param", "bad_grid", "bad_disc"]
+BAD_DISC = [[0, 2, 1, 3], [0, 0.5, 2], [1, 0], [0, 2], [0, 1, 1], [0, 3, 1, 2, 4], [0, 1, 3], [1, 2, 3], [0, "a"], [0, None, 2], [0, 5, 7, 3]]
 FORCES = [None, ["filter"], ["stoch"], ["mixed"], ["constraint"], ["cont2"], ["aux"], ["f1"]]
 
 
@@ -137,6 +138,8 @@ def apply_violations(r, mj, kinds):
                 continue
         elif k == "bad_grid":
             bad_grid = r.choice(BAD_GRIDS)
+        elif k == "bad_disc":
+            bad_grid = ("disc", r.choice(BAD_DISC))
         applied.append(k)
     return raw, applied, bad_grid
 
@@ -149,7 +152,13 @@ def classify_impl(raw, bad_grid, solve_and_simulate, r, meta, mj_for_init):
     from lcm.exceptions import GridInitializationError, ModelInitilizationError
 
     try:
-        if bad_grid is not None:
+        if bad_grid is not None and bad_grid[0] == "disc":
+            from dataclasses import field, make_dataclass
+
+            from lcm import DiscreteGrid
+
+            DiscreteGrid(make_dataclass("Cat", [(f"c{i}", object, field(default=v)) for i, v in enumerate(bad_grid[1])]))
+        elif bad_grid is not None:
             cls = LinspaceGrid if bad_grid[0] == "lin" else LogspaceGrid
             cls(start=bad_grid[1], stop=bad_grid[2], n_points=bad_grid[3])
         grids = {}
@@ -223,7 +232,9 @@ def run_case(case):
     for k in applied:
         h[f"rule:{k}"] = 1
     # model prediction
-    if bad_grid is not None and not driver().call({"op": "grid_validate", "start": pyval_json(bad_grid[1]), "stop": pyval_json(bad_grid[2]), "n": pyval_json(bad_grid[3]), "repaired": True}):
+    if bad_grid is not None and bad_grid[0] == "disc" and not driver().call({"op": "discrete_validate", "dataclass": True, "vals": [pyval_json(v) for v in bad_grid[1]]}):
+        want = ("grid", "GridInit")
+    elif bad_grid is not None and bad_grid[0] != "disc" and not driver().call({"op": "grid_validate", "start": pyval_json(bad_grid[1]), "stop": pyval_json(bad_grid[2]), "n": pyval_json(bad_grid[3]), "repaired": True, "log": bad_grid[0] == "log"}):
         want = ("grid", "GridInit")
     else:
         mraw = {"n_periods": raw["n_periods"], "functions": [{k: f[k] for k in ("name", "args", "stochastic", "key_ok", "value_ok")} for f in raw["functions"]],
